@@ -115,6 +115,28 @@ def do_parse_csv(handle, txn, rows, tmpdir, live=False, earlier=()):
              'raw': t['raw_description']} for t in out]
 
 
+def do_tuples(patterns, txn):
+    """Rules handed to normalize_merchant as plain tuples by a library caller (patterns are ordinary strings, not read from a CSV file)."""
+    from tally import merchant_utils as mu
+    mu.clear_engine_cache()
+    rules = [(p, 'Tuple %d' % i, 'TupleCat', 'Sub%d' % i) for i, p in enumerate(patterns)]
+    try:
+        m, c, s, info = mu.normalize_merchant(txn.get('description', ''), rules, amount=txn.get('amount'))
+        return norm_result(m, c, s, info)
+    except Exception as e:
+        return {'exception': type(e).__name__ + ': ' + str(e)[:120]}
+
+
+def do_loadonly(path):
+    """Whether (and as how many rules) a rule file loads."""
+    from tally import merchant_utils as mu
+    try:
+        mu.clear_engine_cache()
+        return {'rules': len(mu.get_all_rules(path))}
+    except Exception as e:
+        return {'exception': type(e).__name__}
+
+
 def do_eval(expr, txn, variables, rows):
     from tally import expr_parser as ep
     try:
@@ -157,6 +179,10 @@ def answer(q, tmpdir):
         return do_parse_csv(h, tx_from(q['txn']), q['rows'], tmpdir)
     if op == 'eval':
         return do_eval(q['expr'], tx_from(q['txn']), q['vars'], q['rows'])
+    if op == 'tuples':
+        return do_tuples(q['patterns'], tx_from(q['txn']))
+    if op == 'loadonly':
+        return do_loadonly(q['path'])
     if op == 'engine':
         return do_engine(q['text'], q['mode'], tx_from(q['txn']), q['rows'])
     if op == 'view':
@@ -366,6 +392,9 @@ def make_pool(rnd, tmp, k):
         files[name] = {'path': O.write(os.path.join(d, name + '.rules'), R.render(rf)), 'kind': 'rules', 'text': R.render(rf)}
     for name in ('D', 'E'):
         files[name] = {'path': O.write(os.path.join(d, name + '.csv'), R.render_csv(R.gen_csv_rules(rnd), rnd)), 'kind': 'csv'}
+    # a legacy CSV rule file with a stray quote: everything after it is one enormous cell (beyond what the csv module accepts by default)
+    huge = 'Pattern,Merchant,Category,Subcategory\nNETFLIX,Netflix,Subs,Video\nBROKEN,"Stray quote,Cat,Sub\n' + ''.join('P%d,M%d,Cat,Sub\n' % (i, i) for i in range(9000))
+    pool_huge = O.write(os.path.join(d, 'H.csv'), huge)
     files['X'] = {'path': O.write(os.path.join(d, 'X.rules'), R.render(c) + '\n[Broken]\ncategory: NoMatchLine\n'), 'kind': 'corrupt'}
     files['N'] = {'path': None, 'kind': 'none'}
     txns = world.pool(rnd, 24, with_fields=False) + [world.txn(rnd, desc=x) for x in DESCS_EXTRA]
@@ -376,7 +405,7 @@ def make_pool(rnd, tmp, k):
             t['date'] = datetime(t['date'].year, t['date'].month, t['date'].day, 13, 45)
     g = lang.Gen(rnd)
     exprs = [g.expr(rnd.choice('BNS'), rnd.randint(1, 3)) for _ in range(8)] + rnd.sample(CACHE_BAIT, 6) + rnd.sample(DATE_BAIT, 3)
-    return {'files': files, 'txns': txns, 'exprs': exprs}
+    return {'files': files, 'txns': txns, 'exprs': exprs, 'huge': pool_huge}
 
 
 def typed_snapshot(x):
@@ -395,7 +424,7 @@ def run_sequence(rec, pool, pr, rnd, nops, tmp, fresh_rate):
         rec.count('history_ops')
         if step:
             tree_integrity(rec, ep, rnd, 12, 'after step %d' % (step - 1), {'kind': 'history', 'step': step})
-        op = rnd.choice(['load', 'load', 'classify', 'classify', 'classify', 'parse', 'parse', 'eval', 'eval', 'engine', 'view', 'reload'])
+        op = rnd.choice(['load', 'load', 'classify', 'classify', 'classify', 'parse', 'parse', 'eval', 'eval', 'engine', 'view', 'reload', 'tuples'])
         if flood_at == step:
             # a long-lived process has seen many distinct expressions and regular expressions (a big migrated rule file, many files):
             # whatever bounded or keyed cache sits behind them, later answers must not change
@@ -420,6 +449,29 @@ def run_sequence(rec, pool, pr, rnd, nops, tmp, fresh_rate):
             if got3 != want3 and 'oracle_error' not in want3:
                 rec.violation('history-dependent-evaluation:after-many-distinct-expressions', f'{e3!r} on {t3.get("description")!r} after {nflood} other regular expressions: '
                               f'{got3} here, {want3} in a pristine process', {'kind': 'history', 'step': step, 'expr': e3, 'txn': O.jtxn(t3)})
+        if op == 'tuples' and rnd.random() < .25:
+            # whether a rule file loads at all is part of the answer too: the same (oversized) file, here and in a pristine process
+            got7 = do_loadonly(pool['huge'])
+            want7 = pr.ask({'op': 'loadonly', 'path': pool['huge']})
+            rec.count('oversized_rule_file_loads_vs_pristine')
+            if 'oracle_error' not in want7 and got7 != want7:
+                rec.violation('history-dependent-rule-file-loading', f'step {step}: loading a CSV rule file with an oversized cell gives {got7} here, {want7} in a pristine process',
+                              {'kind': 'history', 'step': step})
+            cur = None
+            continue
+        if op == 'tuples':
+            # the SAME pattern texts a legacy CSV file of this pool may hold, handed over as plain strings: what they mean here does not depend on whether a
+            # CSV file with that text was loaded before (and the other way round: the CSV loads and classifications that follow are compared as always)
+            pats = rnd.sample(['(AMZN|COSTCO)', 'NETFLIX and chill', 'A or B', 'amount>5', 'NETFLIX', 'UBER\\s*EATS', '(?i)costco', 'contains\\('], rnd.randint(1, 3))
+            t5 = rnd.choice(pool['txns'])
+            got5 = do_tuples(pats, t5)
+            want5 = pr.ask({'op': 'tuples', 'patterns': pats, 'txn': O.jtxn(t5)})
+            rec.count('tuple_rule_classifications_vs_pristine')
+            if 'oracle_error' not in want5 and got5 != want5:
+                rec.violation('history-dependent-classification:plain-tuple-rules', f'step {step}: plain tuple rules {pats} on {t5.get("description")!r} give {got5}; a pristine '
+                              f'process gives {want5}', {'kind': 'history', 'step': step})
+            cur = None          # (the engine cache was cleared: the next operation loads a file again)
+            continue
         if cur is None or op == 'load':
             nm = rnd.choice(names)
             mode = rnd.choice(['first_match', 'first_match', 'most_specific'])
